@@ -7,7 +7,8 @@ import QsProofs.Lemmas.BrokerObs
 `σ` is `≤` the corresponding clock of `σ'`.  All clock tests of the model are of the form
 `t < clock ⇒ refuse`, hence
 * an op accepted by `σ'` is accepted by `σ`, with `Le`-related results (`step_acc`);
-* a refused op only advances clocks: `Le σ (step σ op).1` (`step_ref`).
+* a refused op only advances clocks: `Le σ (step σ op).1` (`step_ref`) — this includes every refused
+  `applyTxn`: `Position.transact` validates price and time before it moves the quantities.
 -/
 
 set_option linter.unusedSectionVars false
@@ -73,31 +74,26 @@ theorem transact_le {q q' : Position α} (h : PosLe q q') (t : Txn α)
   by_cases hq : t.qty = 0
   · simp only [hq, if_true]; exact ⟨trivial, h⟩
   · simp only [hq, if_false] at hacc ⊢
-    have h1 : PosLe (if 0 < t.qty then q.transactBuy (ofInt t.qty) t.price t.commission
-          else q.transactSell (ofInt (-t.qty)) t.price t.commission)
-        (if 0 < t.qty then q'.transactBuy (ofInt t.qty) t.price t.commission
-          else q'.transactSell (ofInt (-t.qty)) t.price t.commission) := by
-      split
-      · refine ⟨h.1, ?_⟩
-        rw [h.2]; rfl
-      · refine ⟨h.1, ?_⟩
-        rw [h.2]; rfl
-    generalize (if 0 < t.qty then q.transactBuy (ofInt t.qty) t.price t.commission
-          else q.transactSell (ofInt (-t.qty)) t.price t.commission) = p1 at h1 ⊢
-    generalize (if 0 < t.qty then q'.transactBuy (ofInt t.qty) t.price t.commission
-          else q'.transactSell (ofInt (-t.qty)) t.price t.commission) = p1' at h1 hacc ⊢
-    have hacc' : (p1'.updatePrice t.price t.time).2 = none := by
-      rcases hs : p1'.updatePrice t.price t.time with ⟨p2, _ | e⟩
+    have hacc' : (q'.updatePrice t.price t.time).2 = none := by
+      rcases hs : q'.updatePrice t.price t.time with ⟨p2, _ | e⟩
       · rfl
       · rw [hs] at hacc; cases hacc
-    obtain ⟨k1, k2⟩ := updatePrice_le h1 t.price t.time hacc'
-    rcases hs : p1.updatePrice t.price t.time with ⟨p2, _ | e⟩ <;> rw [hs] at k1 k2
-    · rcases hs' : p1'.updatePrice t.price t.time with ⟨p2', _ | e'⟩ <;> rw [hs'] at hacc' k2
+    obtain ⟨k1, k2⟩ := updatePrice_le h t.price t.time hacc'
+    rcases hs : q.updatePrice t.price t.time with ⟨p1, _ | e⟩ <;> rw [hs] at k1 k2
+    · rcases hs' : q'.updatePrice t.price t.time with ⟨p1', _ | e'⟩ <;> rw [hs'] at hacc' k2
       · simp only at k2 ⊢
         refine ⟨trivial, le_refl _, ?_⟩
         rw [k2.2]
+        split <;> rfl
       · cases hacc'
     · cases k1
+
+/-- a refused `transact` only advances the clock (validation precedes the quantity update) -/
+theorem transact_adv (q : Position α) (t : Txn α) {e : Err} (h : (q.transact t).2 = some e) :
+    PosLe q (q.transact t).1 := by
+  obtain ⟨-, -, -, c, hc, heq⟩ := transact_err q t h
+  rw [heq]
+  exact posLe_of_clock q c hc
 
 /-! ### lists of positions -/
 
@@ -177,6 +173,22 @@ theorem transactPosition_le {ps ps' : Positions α} (h : List.Forall₂ PosLe ps
         · exact ⟨rfl, set_le h k2⟩
       · cases hacc
     · cases k1
+
+/-- a refused `transactPosition` only advances the clock of the position concerned -/
+theorem transactPosition_adv (ps : Positions α) (t : Txn α) (hn : (ps.map (·.asset)).Nodup) {e : Err}
+    (h : (ps.transactPosition t).2 = some e) : List.Forall₂ PosLe ps (ps.transactPosition t).1 := by
+  obtain ⟨pos, hf, herr, hset⟩ := transactPosition_err ps t h
+  have hadv := transact_adv pos t herr
+  rw [hset]
+  simp only [Positions.set]
+  rw [List.forall₂_map_right_iff, List.forall₂_same]
+  intro q hq
+  split
+  · rename_i hqa
+    have hqa' : q.asset = pos.asset := (by simpa using hqa : q.asset = _).trans hadv.asset
+    have : q = pos := List.inj_on_of_nodup_map hn hq (posFind_spec hf).1 hqa'
+    rw [this]; exact hadv
+  · exact PosLe.refl q
 
 /-! ### portfolios -/
 
@@ -291,6 +303,17 @@ theorem transactAsset_le {p p' : Portfolio α} (h : PfLe p p') (t : Txn α)
   obtain ⟨k1, k2⟩ := transactPosition_le h.pos t hacc
   rw [transactAsset_ok_c01 p t h1 k1, transactAsset_ok_c01 p' t hc hacc]
   exact ⟨rfl, h.id, by simp only [h.cash], by simp only [h.cash, h.history], le_refl _, k2⟩
+
+/-- a refused `transactAsset` only advances clocks (the portfolio's and / or one position's) -/
+theorem transactAsset_adv (p : Portfolio α) (t : Txn α) (hn : (p.positions.map (·.asset)).Nodup)
+    {e : Err} (h : (p.transactAsset t).2 = some e) : PfLe p (p.transactAsset t).1 := by
+  obtain ⟨p', ⟨h', -, rfl⟩ | ⟨er, ps, h', hc, hps, rfl⟩ | ⟨ev, h', -⟩⟩ := transactAsset_cases p t <;>
+    rw [h'] at h ⊢
+  · exact PfLe.refl _
+  · have := transactPosition_adv p.positions t hn (e := er) (by rw [hps])
+    rw [hps] at this
+    exact ⟨rfl, rfl, rfl, not_lt.mp hc, this⟩
+  · cases h
 
 theorem mark_some (p : Portfolio α) (asset : String) (price : α) (t : Int) (pos : Position α)
     (hf : Positions.find? p.positions asset = some pos) (h1 : ¬ price < 0) (h2 : ¬ t < p.clock) :
@@ -682,10 +705,9 @@ theorem step_acc {σ σ' : Broker α} (h : Le σ σ') (op : Op α) (hnu : ∀ t 
       refine ⟨k1, ?_⟩
       exact le_setPf hL k2 _ _ rfl rfl (by simp [hm]) (by simp only [setPf_clock_c01, hc])
 
-/-- A refused op (not `update`; `applyTxn` refused for a documented reason) only advances clocks. -/
+/-- A refused op (not `update`) only advances clocks. -/
 theorem step_ref (σ : Broker α) (hu : UniqueIds σ) (hp : PosUnique σ) (op : Op α)
     (hnu : ∀ t q, op ≠ .update t q)
-    (hdoc : ∀ pid t, op = .applyTxn pid t → ∀ en, σ.find? pid = some en → t.time < en.pf.clock)
     {e : Err} (h : (step σ op).2 = some e) : Le σ (step σ op).1 := by
   cases op with
   | update t q => exact absurd rfl (hnu t q)
@@ -736,14 +758,18 @@ theorem step_ref (σ : Broker α) (hu : UniqueIds σ) (hp : PosUnique σ) (op : 
           · exact setPf_adv hu hf (this err rfl)
   | applyTxn pid t =>
     simp only [step] at h ⊢
+    have hout := applyTxn_out σ pid t
+    rw [h] at hout
     unfold Broker.applyTxn
     split
     · exact Le.refl σ
     · rename_i en hf
-      obtain ⟨p', ⟨h', -, rfl⟩ | ⟨er, ps, -, hn, -⟩ | ⟨ev, -, hn, -⟩⟩ := transactAsset_cases en.pf t
-      · rw [h']; exact setPf_adv hu hf (PfLe.refl _)
-      · exact absurd (hdoc pid t rfl en hf) hn
-      · exact absurd (hdoc pid t rfl en hf) hn
+      rw [hf] at hout
+      simp only at hout
+      have hadv := transactAsset_adv en.pf t (hp en (find?_spec hf).1) hout.symm
+      rcases hta : en.pf.transactAsset t with ⟨pf, _ | err⟩ <;> rw [hta] at hadv hout
+      · cases hout
+      · exact setPf_adv hu hf hadv
   | applyMark pid asset price t =>
     simp only [step] at h ⊢
     unfold Broker.applyMark at h ⊢
@@ -777,24 +803,19 @@ def acceptedOps (σ : Broker α) : List (Op α) → List (Op α)
     | none => o :: acceptedOps (step σ o).1 os
     | some _ => acceptedOps (step σ o).1 os
 
-/-- no `update` in the run, and every `applyTxn` that is refused along it is refused for a documented
-reason (unknown portfolio, or time earlier than the portfolio's clock) -/
-def Admissible (σ : Broker α) : List (Op α) → Prop
-  | [] => True
-  | o :: os => (∀ t q, o ≠ .update t q) ∧
-      ((step σ o).2 ≠ none →
-        ∀ pid t, o = .applyTxn pid t → ∀ en, σ.find? pid = some en → t.time < en.pf.clock) ∧
-      Admissible (step σ o).1 os
+/-- no `update` in the run -/
+def NoUpdate (ops : List (Op α)) : Prop := ∀ o ∈ ops, ∀ t q, o ≠ .update t q
 
 /-- Running only the accepted ops, from a state that is equal up to earlier clocks, ends in a state equal
 up to earlier clocks. -/
 theorem run_accepted_le (σf σo : Broker α) (hle : Le σf σo) (hu : UniqueIds σo) (hp : PosUnique σo)
-    (ops : List (Op α)) (hadm : Admissible σo ops) :
+    (ops : List (Op α)) (hadm : NoUpdate ops) :
     Le (run σf (acceptedOps σo ops)) (run σo ops) := by
   induction ops generalizing σf σo with
   | nil => exact hle
   | cons o os ih =>
-    obtain ⟨hnu, hdoc, hrest⟩ := hadm
+    have hnu := hadm o List.mem_cons_self
+    have hrest : NoUpdate os := fun o' ho' => hadm o' (List.mem_cons_of_mem _ ho')
     have hu' := (step_total σo o hu).1
     have hp' := step_posUnique σo o hu hp
     simp only [acceptedOps, run]
@@ -805,7 +826,7 @@ theorem run_accepted_le (σf σo : Broker α) (hle : Le σf σo) (hu : UniqueIds
       exact ih _ _ k2 hu' hp' hrest
     | some e =>
       simp only
-      have k := step_ref σo hu hp o hnu (hdoc (by rw [hs]; simp)) hs
+      have k := step_ref σo hu hp o hnu hs
       exact ih _ _ (hle.trans k) hu' hp' hrest
 
 end
